@@ -75,7 +75,7 @@ def dump (s : DState) (step : Nat := 1) : String :=
     | some (p, h) => s!"{i}:{p}:{h}"
     | none => s!"{i}:nil"
   let top := (tipHeight r + 1).toNat
-  let ats := (((List.range (top + 1)).filter (· ≥ s.dumpFrom)).filter fun k => keepIdx (k - s.dumpFrom) (top + 1 - s.dumpFrom) k).map fun (k : Nat) => match headerAt r (Int.ofNat k) with
+  let ats := (((List.range (top + 1)).filter (· ≥ s.dumpFrom)).filter fun k => keepIdx (k - s.dumpFrom) (top + 1 - s.dumpFrom) k || (k ≥ 997 && (k % 1000 ≥ 997 || k % 1000 ≤ 3))).map fun (k : Nat) => match headerAt r (Int.ofNat k) with
     | .ok hd => s!"{k}:{hd.id}"
     | .error e => s!"{k}:{showReadErr e}"
   let rng := fun (a : Int) (n : Nat) => match getHeaders r a n with
@@ -85,6 +85,11 @@ def dump (s : DState) (step : Nat := 1) : String :=
   let df : Int := s.dumpFrom
   let fullN : Nat := if step > 1 && top > 100 + s.dumpFrom then top - 100 else s.dumpFrom
   let ranges := [rng (fullN : Int) (top + 2 - fullN), rng (if th ≥ 3 then th - 3 else 0) 10, rng (df + (th - df) / 2) 5]
+  -- ranges across every main-file boundary below the tip, and one from the stored part into memory
+  let bounds : List Nat := ((List.range (th.toNat / 1000 + 1)).map fun (k : Nat) => k * 1000).filter fun (b : Nat) =>
+    decide (b ≥ 1000) && decide (Int.ofNat b < th) && decide (b ≥ s.dumpFrom + 3)
+  let ranges := ranges ++ bounds.map (fun (b : Nat) => rng (Int.ofNat b - 3) 7)
+    ++ (if th - 160 ≥ df then [rng (th - 160) 30] else [])
   s!"{tipStr r} hh=[{joinWith "," hh}] ch=[{joinWith "," ch}] gh=[{joinWith "," gh}] ph=[{joinWith "," ph}] at=[{joinWith "," ats}] rg=[{joinWith ";" ranges}]"
 
 def evKind : StoreEv → String
